@@ -349,7 +349,11 @@ class Interp:
         func = a.func if a.func is b.func else None
         if kind == "func" and func is None:
             func = ("phi", cond, a, b)
-        return V(kind, T("phi", cond, a.term, b.term), shape=shape, items=items, obj=obj, orig=a.orig | b.orig, labels=a.labels | b.labels | clabels, dim=dim, func=func, loc=a.loc if a.loc == b.loc else None, extra=("phi", cond, a, b))
+        extra = ("phi", cond, a, b)
+        if kind == "ext" and isinstance(a.extra, dict) and isinstance(b.extra, dict):
+            extra = dict(b.extra)
+            extra.update({k: v for k, v in a.extra.items() if v is not None})
+        return V(kind, T("phi", cond, a.term, b.term), shape=shape, items=items, obj=obj, orig=a.orig | b.orig, labels=a.labels | b.labels | clabels, dim=dim, func=func, loc=a.loc if a.loc == b.loc else None, extra=extra)
 
     def join_states(self, A, B, cond):
         if A is B:
